@@ -184,14 +184,19 @@ class DBHandler:
                 (query, query_parameter) = await self._execute_queue.get()
 
                 try:
-                    await self.connection.execute(query, query_parameter)
-                    await self.connection.commit()
-                except aiosqlite.OperationalError:
-                    logger.warning(
-                        f"Could not log message for {query_parameter[5]} to database. Retrying ..."
-                    )
-                    # TODO: This could lead to an infinite loop when there are recurring OperationalErrors!
-                    await self._execute_queue.put((query, query_parameter))
+                    while True:
+                        try:
+                            await self.connection.execute(query, query_parameter)
+                            await self.connection.commit()
+                            break
+                        except aiosqlite.OperationalError:
+                            logger.warning(
+                                f"Could not log message for {query_parameter[5]} to database. Retrying ..."
+                            )
+                            # Retry this very query before taking the next one: putting it back into
+                            # the queue would move it behind messages which were logged later.
+                            # TODO: This could lead to an infinite loop when there are recurring OperationalErrors!
+                            await asyncio.sleep(0)
                 finally:
                     # Inform the the queue that the query was fully processed to track progress
                     self._execute_queue.task_done()
